@@ -122,7 +122,9 @@ type Msg struct {
 	Size         *ast.FuncLit
 	Marshal      *ast.FuncLit
 	Unmarshal    *ast.FuncLit
-	MethodsLit   *ast.CompositeLit
+	MethodsLit   ast.Node // where the protoiface.Methods value is created
+	MethodsFields map[string]ast.Expr // field -> value of the protoiface.Methods ProtoMethods returns
+	MethodsReturned bool // ProtoMethods returns (the address of) that value
 	UnknownVar   *types.Var
 	RawVar       string // rawDesc variable of the file declaring the message
 	Path         []int  // legacy Descriptor() index path
@@ -505,39 +507,148 @@ func (g *GenPkg) fillMsg(m *Msg) {
 			}
 		}
 	}
-	ast.Inspect(pm.Body, func(n ast.Node) bool {
-		cl, ok := n.(*ast.CompositeLit)
-		if !ok {
-			return true
+	// the protoiface.Methods value ProtoMethods returns: `return &Methods{…}`, or a local (`v := &Methods{…}`,
+	// `v := new(Methods)`, `var v Methods`) filled by top-level `v.F = E` assignments and returned (`return v` / `return &v`)
+	isMethods := func(t types.Type) bool {
+		if p, ok := t.(*types.Pointer); ok {
+			t = p.Elem()
 		}
-		tv, ok := g.Info.Types[cl]
-		if !ok || !strings.HasSuffix(tv.Type.String(), "protoiface.Methods") {
-			return true
+		return t != nil && strings.HasSuffix(t.String(), "protoiface.Methods")
+	}
+	fields := map[string]ast.Expr{}
+	fromLit := func(x ast.Expr) (*ast.CompositeLit, bool) {
+		x = ast.Unparen(x)
+		if ue, ok := x.(*ast.UnaryExpr); ok && ue.Op == token.AND {
+			x = ast.Unparen(ue.X)
 		}
-		m.MethodsLit = cl
+		cl, ok := x.(*ast.CompositeLit)
+		if !ok || !isMethods(g.Info.TypeOf(cl)) {
+			return nil, false
+		}
 		for _, e := range cl.Elts {
-			kv, ok := e.(*ast.KeyValueExpr)
-			if !ok {
-				continue
-			}
-			k, _ := kv.Key.(*ast.Ident)
-			vid, _ := kv.Value.(*ast.Ident)
-			if k == nil || vid == nil {
-				continue
-			}
-			fl := lits[g.Info.Uses[vid]]
-			switch k.Name {
-			case "Size":
-				m.Size = fl
-			case "Marshal":
-				m.Marshal = fl
-			case "Unmarshal":
-				m.Unmarshal = fl
+			if kv, ok := e.(*ast.KeyValueExpr); ok {
+				if k, ok := kv.Key.(*ast.Ident); ok {
+					fields[k.Name] = kv.Value
+				}
 			}
 		}
-		return false
-	})
+		return cl, true
+	}
+	var sv types.Object // the local holding the Methods value
+	svPtr := false
+	for _, st := range pm.Body.List {
+		switch t := st.(type) {
+		case *ast.AssignStmt:
+			if t.Tok == token.DEFINE && len(t.Lhs) == 1 && len(t.Rhs) == 1 {
+				id, _ := t.Lhs[0].(*ast.Ident)
+				if id == nil || !isMethods(g.Info.TypeOf(t.Rhs[0])) {
+					continue
+				}
+				if cl, ok := fromLit(t.Rhs[0]); ok {
+					_, svPtr = ast.Unparen(t.Rhs[0]).(*ast.UnaryExpr)
+					sv, m.MethodsLit = g.Info.Defs[id], cl
+				} else if call, ok := ast.Unparen(t.Rhs[0]).(*ast.CallExpr); ok && len(call.Args) == 1 {
+					if fid, ok := call.Fun.(*ast.Ident); ok && fid.Name == "new" {
+						if _, isB := g.Info.Uses[fid].(*types.Builtin); isB {
+							sv, svPtr, m.MethodsLit = g.Info.Defs[id], true, call
+						}
+					}
+				}
+				continue
+			}
+			if t.Tok == token.ASSIGN && len(t.Lhs) == 1 && len(t.Rhs) == 1 && sv != nil {
+				if sel, ok := t.Lhs[0].(*ast.SelectorExpr); ok {
+					if id, ok := ast.Unparen(sel.X).(*ast.Ident); ok && g.Info.Uses[id] == sv {
+						fields[sel.Sel.Name] = t.Rhs[0]
+					}
+				}
+			}
+		case *ast.DeclStmt:
+			if gd, ok := t.Decl.(*ast.GenDecl); ok && gd.Tok == token.VAR {
+				for _, sp := range gd.Specs {
+					if vs, ok := sp.(*ast.ValueSpec); ok && len(vs.Names) == 1 && len(vs.Values) == 0 && isMethods(g.Info.TypeOf(vs.Names[0])) {
+						if _, isPtr := g.Info.TypeOf(vs.Names[0]).(*types.Pointer); !isPtr {
+							sv, svPtr, m.MethodsLit = g.Info.Defs[vs.Names[0]], false, vs
+						}
+					}
+				}
+			}
+		case *ast.ReturnStmt:
+			if len(t.Results) != 1 {
+				continue
+			}
+			r := ast.Unparen(t.Results[0])
+			if cl, ok := fromLit(r); ok && sv == nil {
+				m.MethodsLit, m.MethodsReturned = cl, true
+				continue
+			}
+			if ue, ok := r.(*ast.UnaryExpr); ok && ue.Op == token.AND && !svPtr {
+				r = ast.Unparen(ue.X)
+			} else if !svPtr {
+				continue
+			}
+			if id, ok := r.(*ast.Ident); ok && sv != nil && g.Info.Uses[id] == sv {
+				m.MethodsReturned = true
+			}
+		}
+	}
+	// the local must not be used in any other way (passed on, re-assigned, written in a nested block)
+	if sv != nil {
+		uses := 0
+		ast.Inspect(pm.Body, func(n ast.Node) bool {
+			if id, ok := n.(*ast.Ident); ok && g.Info.Uses[id] == sv {
+				uses++
+			}
+			return true
+		})
+		top := 0
+		for _, st := range pm.Body.List {
+			switch t := st.(type) {
+			case *ast.AssignStmt:
+				if t.Tok == token.ASSIGN && len(t.Lhs) == 1 {
+					if sel, ok := t.Lhs[0].(*ast.SelectorExpr); ok {
+						if id, ok := ast.Unparen(sel.X).(*ast.Ident); ok && g.Info.Uses[id] == sv {
+							top++
+							ast.Inspect(t.Rhs[0], func(n ast.Node) bool {
+								if id, ok := n.(*ast.Ident); ok && g.Info.Uses[id] == sv {
+									top-- // the value refers to the local itself: not understood
+								}
+								return true
+							})
+						}
+					}
+				}
+			case *ast.ReturnStmt:
+				ast.Inspect(t, func(n ast.Node) bool {
+					if id, ok := n.(*ast.Ident); ok && g.Info.Uses[id] == sv {
+						top++
+					}
+					return true
+				})
+			}
+		}
+		if uses != top {
+			m.MethodsReturned = false
+			g.Problems = append(g.Problems, fmt.Sprintf("%s: the protoiface.Methods value built in ProtoMethods is used in a way the model does not follow", m.GoName))
+		}
+	}
+	m.MethodsFields = fields
+	for k, v := range fields {
+		vid, _ := ast.Unparen(v).(*ast.Ident)
+		if vid == nil {
+			continue
+		}
+		fl := lits[g.Info.Uses[vid]]
+		switch k {
+		case "Size":
+			m.Size = fl
+		case "Marshal":
+			m.Marshal = fl
+		case "Unmarshal":
+			m.Unmarshal = fl
+		}
+	}
 	if m.Size == nil || m.Marshal == nil || m.Unmarshal == nil {
-		g.Problems = append(g.Problems, fmt.Sprintf("%s: Size/Marshal/Unmarshal closures not all found in the protoiface.Methods literal", m.GoName))
+		g.Problems = append(g.Problems, fmt.Sprintf("%s: Size/Marshal/Unmarshal closures not all found in the protoiface.Methods value", m.GoName))
 	}
 }
